@@ -164,11 +164,14 @@ Fixpoint expect (max : Z) (items : list sitem) (off : Z) (hand sig : list obs) :
    order; 2 = something delivered from or after an oversize frame; 3 = oversize
    frame did not end the connection with an error; 4 = the connection kept
    reading after the oversize header was complete; 5 = connection ended with an
-   error although every frame was within the limit. *)
+   error although every frame was within the limit; 6 = the connection panicked
+   or hung (error classes 7 / 8 of the harness). *)
 Definition c07_class (max : Z) (items : list sitem) (chunks : list Z)
            (o_hand : list obs) (o_sig : list Z) (o_err o_reads : Z) : N :=
   let '(eh, es0, off, v) := expect max items 0 [] [] in
   let es := map obs_code es0 in
+  (* a panic (7) or a hang (8) of the connection is never an acceptable way to end *)
+  if (o_err =? 7) || (o_err =? 8) then 6%N else
   match v with
   | None | Some VPartial | Some (VGood _) =>
     if negb (obs_list_eqb o_hand eh && zlist_eqb o_sig es) then 1%N
